@@ -171,10 +171,9 @@ def check_case(case):
         sizes = {c: dc.ChunkedDistanceMatrix.load(chunk_files[c]).current_index for c in range(k)}
         ref_sizes = [len(dc.get_lower_triangular_indices_chunk(n, c, k)) for c in range(k)]
         require([sizes[c] for c in range(k)] == ref_sizes, "chunk.file_sizes", lambda: "chunk files hold %r values, chunks have %r pairs" % ([sizes[c] for c in range(k)], ref_sizes))
-        fill_before = [int(m_.current_index) for m_ in loaded]
         combined = dc.ChunkedDistanceMatrix.concat(loaded)
-        # combining leaves the loaded chunks as they were: they can be combined again (other order) with the same result
-        require([int(m_.current_index) for m_ in loaded] == fill_before, "assembled.inputs_untouched", lambda: "chunk objects changed by being combined: %r -> %r" % (fill_before, [int(m_.current_index) for m_ in loaded]))
+        # the loaded chunks can be combined again (other order) with the same result (whether combine accumulates into one of its
+        # inputs is not asserted: the statement only fixes the assembled matrix)
         again = dc.ChunkedDistanceMatrix.concat(list(reversed(loaded)))
         require(again.is_complete() and np.array_equal(again.to_dense(), combined.to_dense() if combined.is_complete() else again.to_dense()), "assembled.repeatable", "combining the same loaded chunks a second time (reversed order) gives another matrix")
         require(combined.is_complete(), "assembled.complete", lambda: "assembled matrix incomplete (order %r, %d/%d values)" % (case["order"], combined.current_index, pairs))
